@@ -9,7 +9,7 @@ P = {
  "C01": ("model-based stateful PBT (proptest op histories + generated hash functions and RNG scripts) against a key-multiset model",
          "Generated insert/delete/union/clear histories over all four Filter implementations with generated BuildHashers (identity, split, constant, modulo, SipHash), scripted eviction RNG and union operands that (for the cuckoo filter) had elements deleted again; after every step every key the model holds must be reported present. Sampling, not proof: finds false negatives reachable within <=600-op histories over <=48-key colliding universes.",
          "Trusts the harness's multiset model and that the generated BuildHasher families are legal hashers; large tables are only exercised by C07."),
- "C02": ("model-based stateful PBT against exact counts, five counter types, colliding hashers",
+ "C02": ("model-based stateful PBT against exact counts, five counter types, colliding hashers (+ libFuzzer target sketch_ops in the thorough tier)",
          "Histories of add/add_n/merge/clear on u8..u64/usize counters with w != d and whole-row-colliding hashers; checks true(x) <= query_point(x) <= N for every key after every step, the add return value and single-key exactness.",
          "Weights are generated so that the documented checked_add overflow panic is never provoked."),
  "C03": ("statistical PBT: per-seed error distributions per (b, n) cell, z=6 one-sided tests with confirmation; plus generated register vectors for the no-panic part",
@@ -30,10 +30,10 @@ P = {
  "C08": ("statistical PBT over (epsilon, delta, stream shape) cells x hasher seeds, z=6 with confirmation",
          "Measures the fraction of (seed, element) pairs whose overestimate exceeds epsilon*N for heavy-hitter, zipf and uniform streams and compares with delta.",
          "Eight (epsilon, delta) cells with delta << epsilon are recorded known findings (double-hashing floor) with ceilings; all other cells judged strictly."),
- "C09": ("differential PBT against a reference Manku-Motwani implementation and exact counts at every prefix",
+ "C09": ("differential PBT against a reference Manku-Motwani implementation and exact counts at every prefix (+ libFuzzer target sketch_ops in the thorough tier)",
          "Generated streams (uniform, zipf, distinct, boundary adversary, blocks) for with_epsilon/with_width; n(), add's return value, query(0) == reference table, no-miss / no-intruder for generated thresholds, table-size bound, at every prefix.",
          "Float guard band 1e-9*n on the (s-epsilon)*n comparisons."),
- "C10": ("model-based PBT: exact counts + shadow CountMinSketch for the error term E, every prefix",
+ "C10": ("model-based PBT: exact counts + shadow CountMinSketch for the error term E, every prefix (+ libFuzzer target sketch_ops in the thorough tier)",
          "Generated k, sketch shapes from 1x1 to collision-free, alphabets with ties; at each prefix iter() yields exactly min(k, distinct) distinct seen elements, a missing x has >= k others with true count >= true(x) - E, and add never panics.",
          "CMSHeap fixes the default hasher, so collisions are steered via (w, d) and the alphabet."),
  "C11": ("PBT over configurations with a counting global allocator as oracle",
